@@ -50,16 +50,17 @@ pub fn main(id: &str) -> ! {
     if run.thorough() {
         // Stages in order of value; a stage starts only while the time budget lasts, the evidence
         // lists the completed ones (the deepest completed bound).
-        let quick_u = refabi::universe::universe("quick");
+        let mut quick_u = refabi::universe::universe("quick");
+        quick_u.extend(crate::world::tuple_band());
         let pw = Config::pairwise();
         let rest: Vec<Config> = Config::all().into_iter().filter(|c| !pw.contains(c)).collect();
         let u2 = refabi::universe::universe("u2");
         let big = per_chunk.max(100);
-        plans.push(("U1 + layout pairs x 8 pairwise-covering configurations".into(),
+        plans.push(("U1 + layout pairs + list-of-tuple band x 8 pairwise-covering configurations".into(),
             Plan { tag: "t1".into(), cfgs: pw.clone(), types: quick_u.clone(), per_chunk: big, jobs }));
         plans.push(("U2 x default configuration".into(),
             Plan { tag: "t2".into(), cfgs: vec![Config::default_cfg()], types: u2.clone(), per_chunk: big, jobs }));
-        plans.push(("U1 + layout pairs x the other 24 configurations (full factorial)".into(),
+        plans.push(("U1 + layout pairs + list-of-tuple band x the other 24 configurations (full factorial)".into(),
             Plan { tag: "t3".into(), cfgs: rest, types: quick_u, per_chunk: big, jobs }));
         plans.push(("U2 x the other 7 pairwise-covering configurations".into(),
             Plan { tag: "t4".into(), cfgs: pw.into_iter().filter(|c| *c != Config::default_cfg()).collect(), types: u2, per_chunk: big, jobs }));
@@ -67,12 +68,15 @@ pub fn main(id: &str) -> ! {
         // development knobs (never set by ./check): E3_UNIVERSE, E3_OFFSET, E3_LIMIT, E3_CFG
         let uni = std::env::var("E3_UNIVERSE").unwrap_or_else(|_| "quick".into());
         let mut types = refabi::universe::universe(&uni);
+        if uni == "quick" {
+            types.extend(crate::world::tuple_band());
+        }
         let off: usize = std::env::var("E3_OFFSET").ok().and_then(|s| s.parse().ok()).unwrap_or(0);
         let lim: usize = std::env::var("E3_LIMIT").ok().and_then(|s| s.parse().ok()).unwrap_or(usize::MAX);
         types = types.into_iter().skip(off).take(lim).collect();
         let cfg = std::env::var("E3_CFG").ok().and_then(|s| Config::parse(&s)).unwrap_or(Config::default_cfg());
         plans.push((
-            format!("{uni} x {}", cfg.name()),
+            format!("{uni} (+ list-of-tuple band) x {}", cfg.name()),
             Plan { tag: "q".into(), cfgs: vec![cfg], types, per_chunk, jobs },
         ));
     }
@@ -122,14 +126,15 @@ pub fn main(id: &str) -> ! {
                 let f = &p.funcs[c.fi];
                 let ty = &f.ty;
                 let tys = ty.to_string();
-                let vc = engine::val_class(ty, &c.v1);
+                let sp = if c.spare { "+spare-capacity" } else { "" };
+                let vc = format!("{}{sp}", engine::val_class(ty, &c.v1));
                 let dir = dir_name(&c.dir);
                 evaluations += 1;
                 plan_cases += 1;
                 *per_cfg.entry(cfg.clone()).or_insert(0) += 1;
                 types_run.insert(tys.clone());
                 let detail = json!({"cfg": cfg, "ty": ty.to_json(), "type": tys, "dir": dir, "vi": c.vi,
-                    "sent": c.v1.to_string(), "reply": c.v2.to_string(), "level": format!("{:?}", f.level), "case_index": ci});
+                    "sent": c.v1.to_string(), "reply": c.v2.to_string(), "spare": c.spare, "level": format!("{:?}", f.level), "case_index": ci});
                 match o {
                     CaseOutcome::Crash(how, err) => {
                         crashes += 1;
@@ -168,7 +173,7 @@ pub fn main(id: &str) -> ! {
                         for e in list {
                             let (pos, msg) = (e[0].as_str().unwrap_or("?"), e[1].as_str().unwrap_or("?"));
                             // the value class of the value this position carries
-                            let vcp = if pos.ends_with("-result") { engine::val_class(ty, &c.v2) } else { vc.clone() };
+                            let vcp = if pos.ends_with("-result") { format!("{}{sp}", engine::val_class(ty, &c.v2)) } else { vc.clone() };
                             let key = if heap_mode {
                                 format!("heap:{pos}:{dir}:{tys}:{vc}")
                             } else {
@@ -176,7 +181,7 @@ pub fn main(id: &str) -> ! {
                             };
                             run.violation(&key, &format!("{dir} of {tys} ({cfg}): {msg}"), detail.clone());
                         }
-                        samples.offer(|| json!({"cfg": cfg, "type": tys, "dir": dir, "sent": c.v1.to_string(), "reply": c.v2.to_string(), "features": feats, "host_buffers": r["ha"], "guest_allocations": r["ga"]}));
+                        samples.offer(|| json!({"cfg": cfg, "type": tys, "dir": dir, "sent": c.v1.to_string(), "reply": c.v2.to_string(), "spare": c.spare, "features": feats, "host_buffers": r["ha"], "guest_allocations": r["ga"]}));
                     }
                 }
             }
@@ -273,7 +278,7 @@ fn replay(run: &mut Run, detail: &Value, heap_mode: bool, jobs: usize) -> ! {
     let mut failing = false;
     for cr in &results {
         for (c, o) in cr.cases.iter().zip(&cr.outcomes) {
-            if dir_name(&c.dir) != want_dir || c.vi != vi {
+            if dir_name(&c.dir) != want_dir || c.vi != vi || c.spare != detail["spare"].as_bool().unwrap_or(false) {
                 continue;
             }
             println!("replay: {} of {} under {}: sent {} reply {}", want_dir, ty, cfg.name(), c.v1, c.v2);
